@@ -127,13 +127,75 @@ func vtC08List(c, m int64) corev1.ResourceList {
 	}
 }
 
+// namespace / name of a pod key: keys below 100 live in "default", key = 100*ns + name otherwise,
+// so that pods of different namespaces can share a name
+func vtC08NS(key int64) string {
+	if key < 100 {
+		return "default"
+	}
+	return fmt.Sprintf("ns%02d", key/100)
+}
+
+func vtC08PodName(key int64) string {
+	if key < 0 {
+		return fmt.Sprintf("m%02d", -key)
+	}
+	return fmt.Sprintf("p%02d", key%100)
+}
+
+// the extended part of a pod record:
+// prioNil label qos kqos phase owner fam  nctr {reqC reqM limC limM}  ninit {always reqC reqM limC limM}  ohFlag ohC ohM
+type vtC08Ext struct {
+	prioNil, label, qos, kqos, phase, owner, fam int64
+	ctrs                                        [][4]int64
+	inits                                       [][5]int64
+	ohF, ohC, ohM                               int64
+}
+
+func vtC08ReadExt(r *vtC08Reader) *vtC08Ext {
+	e := &vtC08Ext{}
+	e.prioNil, e.label, e.qos, e.kqos, e.phase, e.owner, e.fam = r.next(), r.next(), r.next(), r.next(), r.next(), r.next(), r.next()
+	n := int(r.next())
+	for k := 0; k < n; k++ {
+		e.ctrs = append(e.ctrs, [4]int64{r.next(), r.next(), r.next(), r.next()})
+	}
+	n = int(r.next())
+	for k := 0; k < n; k++ {
+		e.inits = append(e.inits, [5]int64{r.next(), r.next(), r.next(), r.next(), r.next()})
+	}
+	e.ohF, e.ohC, e.ohM = r.next(), r.next(), r.next()
+	return e
+}
+
+func (e *vtC08Ext) encode() []int64 {
+	out := []int64{e.prioNil, e.label, e.qos, e.kqos, e.phase, e.owner, e.fam, int64(len(e.ctrs))}
+	for _, c := range e.ctrs {
+		out = append(out, c[:]...)
+	}
+	out = append(out, int64(len(e.inits)))
+	for _, c := range e.inits {
+		out = append(out, c[:]...)
+	}
+	return append(out, e.ohF, e.ohC, e.ohM)
+}
+
+// reads a pod record (extended form when ext is set) and builds the object
+func vtC08ReadPod(r *vtC08Reader, ext bool, base time.Time) *corev1.Pod {
+	f := r.take(19)
+	var e *vtC08Ext
+	if ext {
+		e = vtC08ReadExt(r)
+	}
+	return vtC08Pod(f, e, base)
+}
+
 // pod(19): uid key node prio term resv ds reqC reqM limC limM cfC cfM csS csI schS schT iniS iniT
-func vtC08Pod(f []int64, base time.Time) *corev1.Pod {
+func vtC08Pod(f []int64, e *vtC08Ext, base time.Time) *corev1.Pod {
 	prio := int32(f[3])
 	pod := &corev1.Pod{
 		ObjectMeta: metav1.ObjectMeta{
-			Namespace:   "default",
-			Name:        fmt.Sprintf("p%02d", f[1]),
+			Namespace:   vtC08NS(f[1]),
+			Name:        vtC08PodName(f[1]),
 			UID:         types.UID(fmt.Sprintf("u%02d", f[0])),
 			Annotations: map[string]string{},
 		},
@@ -143,21 +205,86 @@ func vtC08Pod(f []int64, base time.Time) *corev1.Pod {
 		},
 		Status: corev1.PodStatus{Phase: corev1.PodRunning},
 	}
-	if f[4] != 0 {
+	phase, owner, fam := vtB(f[4] != 0), vtB(f[6] != 0), int64(0)
+	if e != nil {
+		if e.prioNil != 0 {
+			pod.Spec.Priority = nil
+		}
+		if e.phase != 0 {
+			phase = e.phase
+		}
+		if e.owner != 0 {
+			owner = e.owner
+		}
+		fam = e.fam
+		if e.label != 0 {
+			v, ok := map[int64]string{1: "koord-prod", 2: "koord-mid", 3: "koord-batch", 4: "koord-free"}[e.label]
+			if !ok {
+				v = "koord-other"
+			}
+			pod.Labels = map[string]string{extension.LabelPodPriorityClass: v}
+		}
+		if e.qos != 0 {
+			v, ok := map[int64]string{1: "LSE", 2: "LSR", 3: "LS", 4: "BE", 5: "SYSTEM"}[e.qos]
+			if !ok {
+				v = "OTHER"
+			}
+			if pod.Labels == nil {
+				pod.Labels = map[string]string{}
+			}
+			pod.Labels[extension.LabelPodQoS] = v
+		}
+		switch e.kqos {
+		case 0:
+		case 1:
+			pod.Status.QOSClass = corev1.PodQOSGuaranteed
+		case 2:
+			pod.Status.QOSClass = corev1.PodQOSBurstable
+		case 3:
+			pod.Status.QOSClass = corev1.PodQOSBestEffort
+		default:
+			pod.Status.QOSClass = "Other"
+		}
+	}
+	switch phase {
+	case 1:
 		pod.Status.Phase = corev1.PodSucceeded
+	case 2:
+		pod.Status.Phase = corev1.PodFailed
+	case 3:
+		pod.Status.Phase = corev1.PodPending
+	case 4:
+		pod.Status.Phase = corev1.PodUnknown
 	}
 	if f[5] != 0 {
 		pod.Annotations[reservationutil.AnnotationReservePod] = "true"
 	}
-	if f[6] != 0 {
+	switch owner {
+	case 1:
 		pod.OwnerReferences = []metav1.OwnerReference{{Kind: "DaemonSet", Name: "ds"}}
+	case 2:
+		pod.OwnerReferences = []metav1.OwnerReference{{Kind: "ReplicaSet", Name: "rs"}, {Kind: "DaemonSet", Name: "ds"}}
+	case 3:
+		pod.OwnerReferences = []metav1.OwnerReference{{Kind: "ReplicaSet", Name: "rs"}}
+	case 4:
+		pod.OwnerReferences = []metav1.OwnerReference{{Kind: "daemonset", Name: "ds"}}
 	}
-	// the resource names a pod of this priority band declares its resources under
+	// the resource names the containers declare their resources under: the family given, else
+	// the one of the pod's priority band
+	if fam < 1 || fam > 3 {
+		fam = 1
+		switch {
+		case prio >= 7000 && prio <= 7999:
+			fam = 2
+		case prio >= 5000 && prio <= 5999:
+			fam = 3
+		}
+	}
 	cpuName, memName := corev1.ResourceCPU, corev1.ResourceMemory
-	switch {
-	case prio >= 7000 && prio <= 7999:
+	switch fam {
+	case 2:
 		cpuName, memName = extension.MidCPU, extension.MidMemory
-	case prio >= 5000 && prio <= 5999:
+	case 3:
 		cpuName, memName = extension.BatchCPU, extension.BatchMemory
 	}
 	cpuQty := func(v int64) resource.Quantity {
@@ -166,20 +293,45 @@ func vtC08Pod(f []int64, base time.Time) *corev1.Pod {
 		}
 		return *resource.NewQuantity(v, resource.DecimalSI)
 	}
-	req, lim := corev1.ResourceList{}, corev1.ResourceList{}
-	if f[7] > 0 {
-		req[cpuName] = cpuQty(f[7])
+	mkRes := func(c []int64) corev1.ResourceRequirements {
+		req, lim := corev1.ResourceList{}, corev1.ResourceList{}
+		if c[0] > 0 {
+			req[cpuName] = cpuQty(c[0])
+		}
+		if c[1] > 0 {
+			req[memName] = *resource.NewQuantity(c[1], resource.BinarySI)
+		}
+		if c[2] > 0 {
+			lim[cpuName] = cpuQty(c[2])
+		}
+		if c[3] > 0 {
+			lim[memName] = *resource.NewQuantity(c[3], resource.BinarySI)
+		}
+		return corev1.ResourceRequirements{Requests: req, Limits: lim}
 	}
-	if f[8] > 0 {
-		req[memName] = *resource.NewQuantity(f[8], resource.BinarySI)
+	pod.Spec.Containers = []corev1.Container{{Name: "main", Resources: mkRes(f[7:11])}}
+	if e != nil {
+		for k, c := range e.ctrs {
+			pod.Spec.Containers = append(pod.Spec.Containers, corev1.Container{Name: fmt.Sprintf("c%d", k), Resources: mkRes(c[:])})
+		}
+		for k, c := range e.inits {
+			ic := corev1.Container{Name: fmt.Sprintf("i%d", k), Resources: mkRes(c[1:])}
+			if c[0] != 0 {
+				always := corev1.ContainerRestartPolicyAlways
+				ic.RestartPolicy = &always
+			}
+			pod.Spec.InitContainers = append(pod.Spec.InitContainers, ic)
+		}
+		if e.ohF != 0 {
+			pod.Spec.Overhead = corev1.ResourceList{}
+			if e.ohC > 0 {
+				pod.Spec.Overhead[corev1.ResourceCPU] = *resource.NewMilliQuantity(e.ohC, resource.DecimalSI)
+			}
+			if e.ohM > 0 {
+				pod.Spec.Overhead[corev1.ResourceMemory] = *resource.NewQuantity(e.ohM, resource.BinarySI)
+			}
+		}
 	}
-	if f[9] > 0 {
-		lim[cpuName] = cpuQty(f[9])
-	}
-	if f[10] > 0 {
-		lim[memName] = *resource.NewQuantity(f[10], resource.BinarySI)
-	}
-	pod.Spec.Containers = []corev1.Container{{Name: "main", Resources: corev1.ResourceRequirements{Requests: req, Limits: lim}}}
 	if cf := vtC08Map(f[11], f[12]); cf != nil {
 		b, _ := json.Marshal(cf)
 		pod.Annotations[extension.AnnotationCustomEstimatedScalingFactors] = string(b)
@@ -244,12 +396,17 @@ func vtC08Metric(r *vtC08Reader, node int64, base time.Time) *slov1alpha1.NodeMe
 	np := int(r.next())
 	for k := 0; k < np; k++ {
 		key, f, vC, vM, prod := r.next(), r.next(), r.next(), r.next(), r.next()
-		pm := &slov1alpha1.PodMetricInfo{Namespace: "default", Name: fmt.Sprintf("p%02d", key), Priority: extension.PriorityBatch}
+		pm := &slov1alpha1.PodMetricInfo{Namespace: vtC08NS(key), Name: vtC08PodName(key), Priority: extension.PriorityBatch}
 		if prod != 0 {
 			pm.Priority = extension.PriorityProd
 		}
-		if f != 0 {
+		switch f {
+		case 1:
 			pm.PodUsage = slov1alpha1.ResourceMap{ResourceList: vtC08List(vC, vM)}
+		case 2: // a nil entry
+			pm = nil
+		case 3: // a usage list that names only a resource the plugin does not vectorize
+			pm.PodUsage = slov1alpha1.ResourceMap{ResourceList: corev1.ResourceList{corev1.ResourceEphemeralStorage: *resource.NewQuantity(vC+1, resource.BinarySI)}}
 		}
 		nm.Status.PodsMetric = append(nm.Status.PodsMetric, pm)
 	}
@@ -294,7 +451,35 @@ func vtC08Node(f []int64) *corev1.Node {
 	return node
 }
 
+// the scheduler snapshot Score reads the node from: holds the node of the current operation
+type vtC08Lister struct{ ni fwktype.NodeInfo }
+
+func (l *vtC08Lister) NodeInfos() fwktype.NodeInfoLister       { return l }
+func (l *vtC08Lister) StorageInfos() fwktype.StorageInfoLister { return l }
+func (l *vtC08Lister) IsPVCUsedByPods(key string) bool         { return false }
+func (l *vtC08Lister) List() ([]fwktype.NodeInfo, error)       { return []fwktype.NodeInfo{l.ni}, nil }
+func (l *vtC08Lister) HavePodsWithAffinityList() ([]fwktype.NodeInfo, error) {
+	return nil, nil
+}
+func (l *vtC08Lister) HavePodsWithRequiredAntiAffinityList() ([]fwktype.NodeInfo, error) {
+	return nil, nil
+}
+func (l *vtC08Lister) Get(nodeName string) (fwktype.NodeInfo, error) {
+	if l.ni == nil || l.ni.Node() == nil || l.ni.Node().Name != nodeName {
+		return nil, fmt.Errorf("node %q not in snapshot", nodeName)
+	}
+	return l.ni, nil
+}
+
+type vtC08Handle struct {
+	fwktype.Handle
+	lister *vtC08Lister
+}
+
+func (h *vtC08Handle) SnapshotSharedLister() fwktype.SharedLister { return h.lister }
+
 type vtC08Env struct {
+	lister *vtC08Lister
 	args   *config.LoadAwareSchedulingArgs
 	pl     *Plugin
 	clk    *clocktesting.FakeClock
@@ -335,16 +520,36 @@ func vtC08NewEnv(r *vtC08Reader) *vtC08Env {
 			UsageAggregatedDuration: vtC08Seconds(f[8]),
 		}
 	}
+	// optional header extension (announced by a negative integer where the op count would be):
+	// -1 wC wM dom accProd sAggType sAggDur — what only Score reads
+	if r.i < len(r.in) && r.in[r.i] < 0 {
+		x := r.take(7)
+		args.ResourceWeights = vtC08Map(x[1], x[2])
+		args.DominantResourceWeight = x[3]
+		args.ScoreAccordingProdUsage = x[4] != 0
+		if args.Aggregated != nil {
+			args.Aggregated.ScoreAggregationType = vtC08AggType(x[5])
+			args.Aggregated.ScoreAggregatedDuration = vtC08Seconds(x[6])
+		}
+	}
 	base := time.Now().Truncate(time.Second)
 	c, clk, est, vectorizer := vtC08NewCache(args, base)
+	// as New() computes it
+	scoreWeights := vectorizer.ToFactorVec(args.ResourceWeights)
+	if args.DominantResourceWeight == 0 && scoreWeights.Empty() {
+		scoreWeights = nil
+	}
+	lister := &vtC08Lister{}
 	pl := &Plugin{
+		handle:         &vtC08Handle{lister: lister},
 		args:           args,
 		vectorizer:     vectorizer,
 		filterProfile:  NewUsageThresholdsFilterProfile(args, vectorizer),
+		scoreWeights:   scoreWeights,
 		estimator:      est,
 		podAssignCache: c,
 	}
-	return &vtC08Env{args: args, pl: pl, clk: clk, base: base, metric: c.NodeMetricHandler()}
+	return &vtC08Env{args: args, pl: pl, clk: clk, base: base, metric: c.NodeMetricHandler(), lister: lister}
 }
 
 var vtC08Variants = []struct {
@@ -440,59 +645,120 @@ func vtC08Exec(in []int64) []int64 {
 	ctx := context.Background()
 	nops := int(r.next())
 	obs := []int64{}
+	var cycle fwktype.CycleState // the CycleState of the scheduling cycle in progress
 	for k := 0; k < nops; k++ {
 		code, now := r.next(), r.next()
 		e.clk.SetTime(e.base.Add(time.Duration(now) * time.Second))
 		res := int64(0)
+		ext := code > 10 // codes 11..15, 18: the pod is in the extended form
+		if ext {
+			code -= 10
+		}
 		switch code {
 		case 1:
 			node := r.next()
-			e.pl.Reserve(ctx, framework.NewCycleState(), vtC08Pod(r.take(19), e.base), vtC08NodeName(node))
+			e.pl.Reserve(ctx, framework.NewCycleState(), vtC08ReadPod(r, ext, e.base), vtC08NodeName(node))
 		case 2:
 			node := r.next()
-			e.pl.Unreserve(ctx, framework.NewCycleState(), vtC08Pod(r.take(19), e.base), vtC08NodeName(node))
+			e.pl.Unreserve(ctx, framework.NewCycleState(), vtC08ReadPod(r, ext, e.base), vtC08NodeName(node))
 		case 3:
-			c.OnAdd(vtC08Pod(r.take(19), e.base), false)
+			c.OnAdd(vtC08ReadPod(r, ext, e.base), false)
 		case 4:
 			oldNode := r.next()
-			f := r.take(19)
-			oldPod := vtC08Pod(f, e.base)
-			oldPod.Spec.NodeName = vtC08NodeName(oldNode)
-			c.OnUpdate(oldPod, vtC08Pod(f, e.base))
-		case 5:
-			pod := vtC08Pod(r.take(19), e.base)
-			if r.next() != 0 {
-				c.OnDelete(cache.DeletedFinalStateUnknown{Key: "default/" + pod.Name, Obj: pod})
+			start := r.i
+			newPod := vtC08ReadPod(r, ext, e.base)
+			if oldNode < 0 { // the old object is missing
+				c.OnUpdate(nil, newPod)
 			} else {
+				r2 := &vtC08Reader{in: in, i: start}
+				oldPod := vtC08ReadPod(r2, ext, e.base)
+				oldPod.Spec.NodeName = vtC08NodeName(oldNode)
+				c.OnUpdate(oldPod, newPod)
+			}
+		case 5:
+			pod := vtC08ReadPod(r, ext, e.base)
+			switch r.next() {
+			case 0:
 				c.OnDelete(pod)
+			case 1:
+				c.OnDelete(cache.DeletedFinalStateUnknown{Key: pod.Namespace + "/" + pod.Name, Obj: pod})
+			case 2: // a tombstone that does not hold a pod
+				c.OnDelete(cache.DeletedFinalStateUnknown{Key: pod.Namespace + "/" + pod.Name, Obj: &corev1.Node{}})
+			default:
+				c.OnDelete(&corev1.Node{})
 			}
 		case 6:
 			node, upd := r.next(), r.next()
 			nm := vtC08Metric(r, node, e.base)
-			if upd != 0 {
-				e.metric.OnUpdate(nm, nm)
-			} else {
+			switch upd {
+			case 0:
 				e.metric.OnAdd(nm, false)
+			case 1:
+				e.metric.OnUpdate(nm, nm)
+			case 2: // not a NodeMetric
+				e.metric.OnAdd(&corev1.Node{ObjectMeta: metav1.ObjectMeta{Name: nm.Name}}, false)
+			default: // a nil NodeMetric
+				e.metric.OnUpdate(nm, (*slov1alpha1.NodeMetric)(nil))
 			}
 		case 7:
 			node, wrap := r.next(), r.next()
 			nm := &slov1alpha1.NodeMetric{ObjectMeta: metav1.ObjectMeta{Name: vtC08NodeName(node)}}
-			if wrap != 0 {
-				e.metric.OnDelete(cache.DeletedFinalStateUnknown{Key: nm.Name, Obj: nm})
-			} else {
+			switch wrap {
+			case 0:
 				e.metric.OnDelete(nm)
+			case 1:
+				e.metric.OnDelete(cache.DeletedFinalStateUnknown{Key: nm.Name, Obj: nm})
+			case 2:
+				e.metric.OnDelete(cache.DeletedFinalStateUnknown{Key: nm.Name, Obj: &corev1.Node{ObjectMeta: metav1.ObjectMeta{Name: nm.Name}}})
+			default:
+				e.metric.OnDelete(&corev1.Node{ObjectMeta: metav1.ObjectMeta{Name: nm.Name}})
 			}
-		default:
+		case 8:
+			// pre: 0 a new cycle without PreFilter, 1 a new cycle with PreFilter, 2 the next node
+			// of the cycle in progress (same CycleState, as the scheduler calls Filter)
 			pre := r.next()
 			node := vtC08Node(r.take(17))
-			pod := vtC08Pod(r.take(19), e.base)
+			pod := vtC08ReadPod(r, ext, e.base)
 			ni := framework.NewNodeInfo()
 			ni.SetNode(node)
-			state := framework.NewCycleState()
-			if pre != 0 {
-				e.pl.PreFilter(ctx, state, pod, nil)
+			if pre != 2 || cycle == nil {
+				cycle = framework.NewCycleState()
 			}
-			res = vtC08Status(e.pl.Filter(ctx, state, pod, ni))
+			if pre == 1 {
+				e.pl.PreFilter(ctx, cycle, pod, nil)
+			}
+			res = vtC08Status(e.pl.Filter(ctx, cycle, pod, ni))
+		case 10:
+			// Score for one node: pre as for Filter (2 = in the cycle in progress, after its Filters)
+			pre := r.next()
+			node := vtC08Node(r.take(17))
+			pod := vtC08ReadPod(r, ext, e.base)
+			ni := framework.NewNodeInfo()
+			ni.SetNode(node)
+			e.lister.ni = ni
+			if pre != 2 || cycle == nil {
+				cycle = framework.NewCycleState()
+			}
+			if pre == 1 {
+				e.pl.PreFilter(ctx, cycle, pod, nil)
+			}
+			score, st := e.pl.Score(ctx, cycle, pod, ni)
+			res = score
+			if st != nil && !st.IsSuccess() {
+				res = -1
+			}
+		default:
+			// a pod event handler called with something that is not a pod
+			switch r.next() {
+			case 0:
+				c.OnAdd(&corev1.Node{}, false)
+			case 1:
+				c.OnUpdate(nil, &corev1.Node{})
+			case 2:
+				c.OnUpdate(&corev1.Pod{Spec: corev1.PodSpec{NodeName: "n01"}}, (*corev1.Pod)(nil))
+			default:
+				c.OnDelete("garbage")
+			}
 		}
 		obs = append(obs, res)
 		obs = append(obs, e.observe()...)
@@ -505,6 +771,7 @@ func vtC08Exec(in []int64) []int64 {
 type vtC08G struct {
 	r     *rand.Rand
 	large bool
+	rich  bool // pods may take the extended form
 	ut    int64 // the update time the generated timestamps cluster around
 	iv    int64
 }
@@ -546,10 +813,89 @@ func (g *vtC08G) instant() int64 {
 	return g.ut - 200 + int64(g.r.Intn(400))
 }
 
-type vtC08PodRec [19]int64
+type vtC08PodRec struct {
+	f   [19]int64
+	ext *vtC08Ext // nil: the basic form
+}
+
+// the wire form of an operation on this pod: the op code (+10 for the extended form), the
+// leading fields, the record
+func (p vtC08PodRec) emit(in []int64, code int64, lead ...int64) []int64 {
+	if p.ext != nil {
+		code += 10
+	}
+	in = append(append(in, code), lead...)
+	in = append(in, p.f[:]...)
+	if p.ext != nil {
+		in = append(in, p.ext.encode()...)
+	}
+	return in
+}
+
+// the priority class the code will derive for the pod (used to keep reports mostly consistent)
+func (p vtC08PodRec) prod() bool {
+	prio, e := p.f[3], p.ext
+	if e != nil && e.label != 0 {
+		return e.label == 1
+	}
+	if e == nil || e.prioNil == 0 {
+		switch {
+		case prio >= 9000 && prio <= 9999:
+			return true
+		case prio >= 3000 && prio <= 3999, prio >= 5000 && prio <= 5999, prio >= 7000 && prio <= 7999:
+			return false
+		}
+	}
+	if e != nil && e.qos >= 1 && e.qos <= 5 {
+		return e.qos != 4
+	}
+	if e != nil && e.kqos != 0 {
+		return e.kqos == 1 || e.kqos == 2
+	}
+	return p.f[7]+p.f[8]+p.f[9]+p.f[10] > 0
+}
+
+func (g *vtC08G) ctr() [4]int64 {
+	switch g.r.Intn(4) {
+	case 0:
+		return [4]int64{g.cpu(), g.mem(), 0, 0}
+	case 1:
+		return [4]int64{g.cpu(), 0, g.cpu(), 0}
+	case 2:
+		return [4]int64{0, 0, 0, 0}
+	}
+	return [4]int64{g.cpu(), g.mem(), g.cpu(), g.mem()}
+}
+
+// the extended part: priority / QoS defaulting inputs, phases, owners, more containers, init
+// containers (some restartable), overhead, a resource family that need not match the class
+func (g *vtC08G) newExt() *vtC08Ext {
+	e := &vtC08Ext{}
+	e.prioNil = vtB(g.r.Intn(4) == 0)
+	e.label = g.pick(0, 0, 0, 0, 1, 2, 3, 4, 7)
+	e.qos = g.pick(0, 0, 0, 1, 2, 3, 4, 4, 5, 9)
+	e.kqos = g.pick(0, 0, 0, 1, 2, 3, 3, 8)
+	e.phase = g.pick(0, 0, 0, 0, 0, 0, 2, 3, 3, 4)
+	e.owner = g.pick(0, 0, 0, 0, 2, 3, 4)
+	e.fam = g.pick(0, 0, 0, 1, 1, 2, 3)
+	for g.r.Intn(2) == 0 && len(e.ctrs) < 3 {
+		e.ctrs = append(e.ctrs, g.ctr())
+	}
+	for g.r.Intn(3) == 0 && len(e.inits) < 3 {
+		c := g.ctr()
+		e.inits = append(e.inits, [5]int64{vtB(g.r.Intn(3) == 0), c[0], c[1], c[2], c[3]})
+	}
+	if g.r.Intn(4) == 0 {
+		e.ohF, e.ohC, e.ohM = 1, g.pick(0, 10, 100, g.cpu()), g.pick(0, 1<<20, g.mem())
+	}
+	return e
+}
+
+
 
 func (g *vtC08G) newPod(uid int64) vtC08PodRec {
-	var p vtC08PodRec
+	var pr vtC08PodRec
+	p := &pr.f
 	p[0] = uid
 	p[1] = uid
 	if g.r.Intn(5) == 0 {
@@ -560,8 +906,8 @@ func (g *vtC08G) newPod(uid int64) vtC08PodRec {
 	if g.r.Intn(20) == 0 {
 		p[5] = 1 // a reservation's reserve pod: never cached
 	}
-	g.mutateSpec(&p)
-	g.mutateSpec(&p)
+	g.mutateSpec(&pr)
+	g.mutateSpec(&pr)
 	if g.r.Intn(4) == 0 {
 		p[11], p[12] = g.factor(), g.factor()
 	}
@@ -570,11 +916,46 @@ func (g *vtC08G) newPod(uid int64) vtC08PodRec {
 		p[14] = g.pick(-1, 0, 1, 30, 60, 300, -7)
 	}
 	p[16], p[18] = vtC08ZeroTime, vtC08ZeroTime
-	g.mutateCond(&p)
-	return p
+	g.mutateCond(&pr)
+	if g.rich && g.r.Intn(2) == 0 {
+		pr.ext = g.newExt()
+		if g.r.Intn(3) == 0 {
+			p[3] = g.pick(0, 0, 100, 2999, 4000, 6000, 8999, 10000, -1, 2000000000)
+		}
+		if g.r.Intn(3) == 0 {
+			p[1] = 100*int64(1+g.r.Intn(2)) + p[1] // the same name in another namespace
+		}
+	}
+	return pr
 }
 
-func (g *vtC08G) mutateSpec(p *vtC08PodRec) {
+func (g *vtC08G) mutateSpec(pr *vtC08PodRec) {
+	p := &pr.f
+	if pr.ext != nil && g.r.Intn(2) == 0 {
+		// change the other containers / init containers / overhead / priority presence
+		e := *pr.ext
+		switch g.r.Intn(5) {
+		case 0:
+			e.ctrs = append(append([][4]int64{}, e.ctrs...), g.ctr())
+			if len(e.ctrs) > 3 {
+				e.ctrs = e.ctrs[2:]
+			}
+		case 1:
+			c := g.ctr()
+			e.inits = append(append([][5]int64{}, e.inits...), [5]int64{vtB(g.r.Intn(3) == 0), c[0], c[1], c[2], c[3]})
+			if len(e.inits) > 3 {
+				e.inits = e.inits[2:]
+			}
+		case 2:
+			e.ohF, e.ohC, e.ohM = 1-e.ohF, g.pick(0, 10, 100, g.cpu()), g.pick(0, 1<<20, g.mem())
+		case 3:
+			e.prioNil = 1 - e.prioNil
+		default:
+			e.fam = g.pick(0, 1, 2, 3)
+		}
+		pr.ext = &e
+		return
+	}
 	switch g.r.Intn(4) {
 	case 0:
 		p[7], p[9] = g.cpu(), g.pick(0, 0, g.cpu())
@@ -587,7 +968,8 @@ func (g *vtC08G) mutateSpec(p *vtC08PodRec) {
 	}
 }
 
-func (g *vtC08G) mutateCond(p *vtC08PodRec) {
+func (g *vtC08G) mutateCond(pr *vtC08PodRec) {
+	p := &pr.f
 	if g.r.Intn(2) == 0 {
 		p[15], p[16] = g.pick(0, 1, 2, 2, 2), g.instant()
 	}
@@ -600,6 +982,7 @@ func vtC08Gen(r *rand.Rand, i int) (string, []int64) {
 	g := &vtC08G{r: r}
 	style := []string{"cache", "cache", "mixed", "mixed", "filter", "degenerate"}[r.Intn(6)]
 	g.large = r.Intn(3) == 0
+	g.rich = r.Intn(5) < 3
 	// expiry configuration and the region update times are drawn from (see metric_expired:
 	// the wall clock is real, so update times keep clear of the expiry boundary)
 	expMode := r.Intn(5)
@@ -643,6 +1026,11 @@ func vtC08Gen(r *rand.Rand, i int) (string, []int64) {
 		in = append(in, g.pick(85, 100, g.factor()), g.pick(70, 100, g.factor()))
 	}
 	nops := 3 + r.Intn(14)
+	scoring := r.Intn(2) == 0
+	if scoring { // header extension: what Score reads
+		in = append(in, -1, g.pick(-1, 0, 1, 1, 2, 5, 100), g.pick(-1, 0, 1, 1, 3, 100), g.pick(0, 0, 1, 5, 100),
+			vtB(r.Intn(2) == 0), g.pick(0, 0, 1, 2), g.pick(0, 300, 600))
+	}
 	cfgIn := in
 	in = []int64{}
 	count := int64(0)
@@ -672,7 +1060,7 @@ func vtC08Gen(r *rand.Rand, i int) (string, []int64) {
 		ivF := vtB(r.Intn(3) != 0)
 		infoF := vtB(r.Intn(10) != 0)
 		count++
-		in = append(in, 6, nowv, node, vtB(r.Intn(2) == 0), utF, g.ut, ivF, g.iv, infoF, g.cpu(), g.mem(), g.cpu(), g.mem())
+		in = append(in, 6, nowv, node, g.pick(0, 0, 0, 0, 0, 1, 1, 1, 1, 1, 2, 3), utF, g.ut, ivF, g.iv, infoF, g.cpu(), g.mem(), g.cpu(), g.mem())
 		if !(ivF != 0) {
 			g.iv = 60
 		}
@@ -692,25 +1080,25 @@ func vtC08Gen(r *rand.Rand, i int) (string, []int64) {
 		keys := []int64{}
 		for uid := int64(1); uid <= nuid; uid++ {
 			if n, ok := loc[uid]; ok && n == node && r.Intn(4) != 0 {
-				keys = append(keys, getPod(uid)[1])
+				keys = append(keys, getPod(uid).f[1])
 			}
 		}
 		for r.Intn(3) == 0 {
-			keys = append(keys, 1+r.Int63n(5))
+			keys = append(keys, 1+r.Int63n(5)+100*g.pick(0, 0, 0, 1, 2))
 		}
 		in = append(in, int64(len(keys)))
 		for _, k := range keys {
 			prod := int64(0)
 			// usually consistent with the pod's priority
 			for uid := int64(1); uid <= nuid; uid++ {
-				if p, ok := pods[uid]; ok && p[1] == k && p[3] >= 9000 {
+				if p, ok := pods[uid]; ok && p.f[1] == k && p.prod() {
 					prod = 1
 				}
 			}
 			if r.Intn(6) == 0 {
 				prod = 1 - prod
 			}
-			in = append(in, k, vtB(r.Intn(8) != 0), g.cpu(), g.mem(), prod)
+			in = append(in, k, g.pick(1, 1, 1, 1, 1, 1, 1, 1, 1, 0, 0, 2, 3), g.cpu(), g.mem(), prod)
 		}
 	}
 	for k := 0; k < nops; k++ {
@@ -734,10 +1122,9 @@ func vtC08Gen(r *rand.Rand, i int) (string, []int64) {
 		case kind < 12: // reserve
 			node := anyNode()
 			q := *p
-			q[2] = 0
+			q.f[2] = 0
 			count++
-			in = append(in, 1, nowv, node)
-			in = append(in, q[:]...)
+			in = q.emit(in, 1, nowv, node)
 			loc[uid] = node
 		case kind < 20: // unreserve
 			node := loc[uid]
@@ -745,62 +1132,76 @@ func vtC08Gen(r *rand.Rand, i int) (string, []int64) {
 				node = anyNode()
 			}
 			q := *p
-			q[2] = 0
+			q.f[2] = 0
 			count++
-			in = append(in, 2, nowv, node)
-			in = append(in, q[:]...)
+			in = q.emit(in, 2, nowv, node)
 			if loc[uid] == node {
 				delete(loc, uid)
 			}
 		case kind < 32: // informer add
-			if p[2] == 0 || r.Intn(4) == 0 {
-				p[2] = anyNode()
+			if p.f[2] == 0 || r.Intn(4) == 0 {
+				p.f[2] = anyNode()
 			}
 			count++
-			in = append(in, 3, nowv)
-			in = append(in, p[:]...)
-			loc[uid] = p[2]
+			in = p.emit(in, 3, nowv)
+			loc[uid] = p.f[2]
 		case kind < 56: // informer update
-			old := p[2]
-			switch r.Intn(8) {
+			old := p.f[2]
+			switch r.Intn(9) {
 			case 0: // bound (possibly elsewhere than reserved)
 				if n, ok := loc[uid]; ok && r.Intn(4) != 0 {
-					p[2] = n
+					p.f[2] = n
 				} else {
-					p[2] = anyNode()
+					p.f[2] = anyNode()
 				}
 			case 1:
 				g.mutateSpec(p)
 			case 2:
-				p[3] = g.pick(9000, 9999, 7000, 5000, 5999, 3000)
+				p.f[3] = g.pick(9000, 9999, 7000, 5000, 5999, 3000)
+				if p.ext != nil {
+					p.f[3] = g.pick(9000, 9999, 7000, 5000, 3000, 0, 8999, 10000, 4000)
+				}
 			case 3, 4:
 				g.mutateCond(p)
 			case 5:
-				p[4] = 1 - p[4] // terminated / running
+				p.f[4] = 1 - p.f[4] // terminated / running
+				if p.ext != nil {
+					e := *p.ext
+					e.phase = g.pick(0, 0, 2, 3, 4)
+					p.ext = &e
+				}
 			case 6:
-				p[2] = g.pick(0, anyNode(), anyNode())
+				p.f[2] = g.pick(0, anyNode(), anyNode())
+			case 7: // labels / status only: not re-read by OnUpdate
+				if p.ext != nil {
+					e := *p.ext
+					e.label, e.qos, e.kqos = g.pick(0, 1, 3, e.label), g.pick(0, 3, 4, e.qos), g.pick(0, 2, 3, e.kqos)
+					p.ext = &e
+				}
 			default: // metadata only
-				p[13] = g.pick(-1, 30, 300)
+				p.f[13] = g.pick(-1, 30, 300)
 			}
-			if p[2] == 0 && r.Intn(2) == 0 {
-				p[2] = anyNode()
+			if p.f[2] == 0 && r.Intn(2) == 0 {
+				p.f[2] = anyNode()
 			}
 			if r.Intn(8) == 0 {
-				old = g.pick(0, anyNode())
+				old = g.pick(0, -1, anyNode())
 			}
 			count++
-			in = append(in, 4, nowv, old)
-			in = append(in, p[:]...)
-			if p[4] == 0 && p[2] != 0 {
-				loc[uid] = p[2]
+			in = p.emit(in, 4, nowv, old)
+			if phase := p.f[4] != 0 || (p.ext != nil && p.ext.phase == 2); !phase && p.f[2] != 0 {
+				loc[uid] = p.f[2]
 			} else {
 				delete(loc, uid)
 			}
 		case kind < 66: // informer delete
 			count++
-			in = append(in, 5, nowv)
-			in = append(in, p[:]...)
-			in = append(in, vtB(r.Intn(4) == 0))
+			in = p.emit(in, 5, nowv)
+			wrap := g.pick(0, 0, 0, 0, 0, 0, 1, 1, 2, 3)
+			in = append(in, wrap)
+			if wrap >= 2 {
+				break // nothing was deleted
+			}
 			delete(loc, uid)
 			if r.Intn(2) == 0 {
 				delete(pods, uid) // a later pod with this uid number is a new object
@@ -809,7 +1210,7 @@ func vtC08Gen(r *rand.Rand, i int) (string, []int64) {
 			emitMetric(anyNode())
 		case kind < 88: // metric deleted
 			count++
-			in = append(in, 7, nowv, anyNode(), vtB(r.Intn(4) == 0))
+			in = append(in, 7, nowv, anyNode(), g.pick(0, 0, 0, 0, 0, 1, 1, 2, 3))
 		default: // filter
 			var nd [17]int64
 			nd[0] = anyNode()
@@ -835,9 +1236,13 @@ func vtC08Gen(r *rand.Rand, i int) (string, []int64) {
 					nd[15], nd[16] = vtB(r.Intn(2) == 0), g.pick(0, 300, 600)
 				}
 			}
+			if r.Intn(12) == 0 { // a pod event about something that is not a pod
+				count++
+				in = append(in, 9, nowv, int64(r.Intn(4)))
+			}
 			q := g.newPod(9)
-			q[2] = 0
-			q[6] = vtB(r.Intn(10) == 0)
+			q.f[2] = 0
+			q.f[6] = vtB(r.Intn(10) == 0)
 			// a burst of decisions for consecutive incoming requests, so that the total crosses
 			// the threshold (and its exact ties) somewhere inside the burst
 			burst := 1
@@ -848,12 +1253,33 @@ func vtC08Gen(r *rand.Rand, i int) (string, []int64) {
 			if g.large {
 				step = g.pick(10, 40, 100)
 			}
+			// one scheduling cycle over several nodes (PreFilter once, the same CycleState for
+			// every node), or separate cycles for a growing request
+			sameCycle := r.Intn(3) == 0
 			for b := 0; b < burst; b++ {
 				count++
-				in = append(in, 8, nowv, vtB(r.Intn(2) == 0))
-				in = append(in, nd[:]...)
-				in = append(in, q[:]...)
-				q[7] += step
+				pre := vtB(r.Intn(2) == 0)
+				if sameCycle && b > 0 {
+					pre = 2
+					nd[0] = anyNode()
+				}
+				in = q.emit(in, 8, append([]int64{nowv, pre}, nd[:]...)...)
+				if !sameCycle {
+					q.f[7] += step
+				}
+			}
+			// Score, as the scheduler calls it after the Filters of the cycle (same CycleState),
+			// or on its own
+			if scoring && r.Intn(2) == 0 {
+				for b := 1 + r.Intn(3); b > 0; b-- {
+					count++
+					pre := vtB(r.Intn(2) == 0)
+					if sameCycle {
+						pre = 2
+					}
+					nd[0] = anyNode()
+					in = q.emit(in, 10, append([]int64{nowv, pre}, nd[:]...)...)
+				}
 			}
 		}
 	}
@@ -861,6 +1287,12 @@ func vtC08Gen(r *rand.Rand, i int) (string, []int64) {
 	label := style
 	if g.large {
 		label += "-large"
+	}
+	if g.rich {
+		label += "-rich"
+	}
+	if scoring {
+		label += "-score"
 	}
 	return label, in
 }
@@ -887,7 +1319,7 @@ func vtC08FloatExec(in []int64) []int64 {
 		f[7], f[9], f[8], f[10] = in[2], in[3], in[5], in[6]
 		f[11], f[12], f[13], f[14] = -1, -1, -1, -1
 		f[16], f[18] = vtC08ZeroTime, vtC08ZeroTime
-		list, err := est.EstimatePod(vtC08Pod(f[:], time.Unix(0, 0)))
+		list, err := est.EstimatePod(vtC08Pod(f[:], nil, time.Unix(0, 0)))
 		if err != nil {
 			return []int64{-1, -1}
 		}
@@ -960,3 +1392,345 @@ func vtC08FloatGen(r *rand.Rand, i int) (string, []int64) {
 }
 
 func TestVerifC08Float(t *testing.T) { vtMain(t, "C08", vtC08FloatGen, vtC08FloatExec) }
+
+// ---------------------------------------------------------------------------- stream "sched"
+// Schedules of LOCK SECTIONS: every action is one call of a real function of the cache
+// (getOrCreateNodeInfo / getNodeInfo / nodeInfo.AddOrUpdatePod / AddOrUpdateNodeMetric /
+// DeletePod / DeleteNodeMetric, Plugin.Filter), issued on behalf of a logical thread that keeps
+// the nodeInfo it loaded between its two sections — the way the goroutines of the scheduler
+// interleave, replayed deterministically on one goroutine.  An action that would have to wait
+// for a lock held by another thread's unfinished creation is not enabled and is skipped.
+// Wire format: see coq/C08/Codec_Sched.v.
+
+type vtC08Thread struct {
+	n       *nodeInfo
+	created bool
+	name    string
+	has     bool
+	ok      bool
+	again   bool // the nodeInfo in hand was loaded by the retry
+}
+
+// runs the schedule; dropped reports whether an add-or-update was given up after its retry
+func vtC08SchedRun(in []int64) (obs []int64, dropped bool) {
+	r := &vtC08Reader{in: in}
+	e := vtC08NewEnv(r)
+	c := e.pl.podAssignCache
+	ctx := context.Background()
+	nacts := int(r.next())
+	threads := map[int64]*vtC08Thread{}
+	th := func(t int64) *vtC08Thread {
+		if x, ok := threads[t]; ok {
+			return x
+		}
+		x := &vtC08Thread{}
+		threads[t] = x
+		return x
+	}
+	locked := map[*nodeInfo]int64{} // write locks held by creators that have not updated yet
+	canWrite := func(t int64, x *vtC08Thread) bool {
+		owner, held := locked[x.n]
+		if x.created {
+			return held && owner == t
+		}
+		return !held
+	}
+	// the podAssignInfo the real assign computes for the pod at the current clock
+	infoOf := func(pod *corev1.Pod) *podAssignInfo {
+		scratch := newPodAssignCache(e.pl.estimator, e.pl.vectorizer, e.args)
+		scratch.clock = e.clk
+		scratch.assign("scratch", pod)
+		sn, ok := scratch.getNodeInfo("scratch")
+		if !ok || sn == nil {
+			return nil
+		}
+		return sn.podInfos[pod.UID]
+	}
+	for k := 0; k < nacts; k++ {
+		code, t := r.next(), r.next()
+		ext := code > 10
+		if ext {
+			code -= 10
+		}
+		x := th(t)
+		res := int64(0)
+		switch code {
+		case 1:
+			node, again := r.next(), r.next()
+			if t == 0 || (again != 0 && x.ok) {
+				break
+			}
+			name := vtC08NodeName(node)
+			n, created := c.getOrCreateNodeInfo(name)
+			*x = vtC08Thread{n: n, created: created, name: name, has: true, ok: false, again: again != 0}
+			if created {
+				locked[n] = t
+			}
+		case 2:
+			name := vtC08NodeName(r.next())
+			n, ok := c.getNodeInfo(name)
+			*x = vtC08Thread{n: n, name: name, has: ok && n != nil, ok: x.ok}
+		case 3:
+			now := r.next()
+			e.clk.SetTime(e.base.Add(time.Duration(now) * time.Second))
+			pod := vtC08ReadPod(r, ext, e.base)
+			info := infoOf(pod)
+			if info == nil || !x.has || !canWrite(t, x) {
+				break
+			}
+			ok := x.n.AddOrUpdatePod(info, x.created)
+			if x.created {
+				delete(locked, x.n)
+			}
+			dropped = dropped || (!ok && x.again)
+			*x = vtC08Thread{ok: ok}
+		case 4:
+			nm := vtC08Metric(r, r.next(), e.base)
+			if !x.has || !canWrite(t, x) {
+				break
+			}
+			nm.Name = x.name
+			ok := x.n.AddOrUpdateNodeMetric(nm, c, x.created)
+			if x.created {
+				delete(locked, x.n)
+			}
+			dropped = dropped || (!ok && x.again)
+			*x = vtC08Thread{ok: ok}
+		case 5:
+			uid := r.next()
+			if !x.has {
+				break
+			}
+			if _, held := locked[x.n]; held {
+				break
+			}
+			x.n.DeletePod(x.name, types.UID(fmt.Sprintf("u%02d", uid)), c)
+			*x = vtC08Thread{ok: x.ok}
+		case 6:
+			if !x.has {
+				break
+			}
+			if _, held := locked[x.n]; held {
+				break
+			}
+			x.n.DeleteNodeMetric(x.name, c)
+			*x = vtC08Thread{ok: x.ok}
+		default:
+			node := vtC08Node(r.take(17))
+			pod := vtC08ReadPod(r, ext, e.base)
+			if n, ok := c.getNodeInfo(node.Name); ok && n != nil {
+				if _, held := locked[n]; held { // the reader would wait for the creator
+					res = -1
+					break
+				}
+			}
+			ni := framework.NewNodeInfo()
+			ni.SetNode(node)
+			res = vtC08Status(e.pl.Filter(ctx, framework.NewCycleState(), pod, ni))
+		}
+		obs = append(obs, res)
+		for node := int64(1); node <= 3; node++ {
+			name := vtC08NodeName(node)
+			n, ok := c.getNodeInfo(name)
+			if !ok || n == nil {
+				obs = append(obs, 0)
+				continue
+			}
+			_, held := locked[n]
+			uids := make([]string, 0, len(n.podInfos))
+			for uid := range n.podInfos {
+				uids = append(uids, string(uid))
+			}
+			sort.Strings(uids)
+			obs = append(obs, 1, vtB(n.deleted), vtB(held), vtB(n.nodeMetric != nil), int64(len(uids)))
+			for _, u := range uids {
+				v, _ := strconv.ParseInt(u[1:], 10, 64)
+				obs = append(obs, v)
+			}
+			if n.nodeMetric == nil {
+				continue
+			}
+			obs = append(obs, vtC08Sums(n)...)
+			fresh, fclk, _, _ := vtC08NewCache(e.args, e.base)
+			metricFirst := len(uids)%2 == 1
+			if metricFirst {
+				fresh.NodeMetricHandler().OnAdd(n.nodeMetric, false)
+			}
+			for _, u := range uids {
+				info := n.podInfos[types.UID(u)]
+				fclk.SetTime(info.timestamp)
+				fresh.assign(name, info.pod)
+			}
+			if !metricFirst {
+				fresh.NodeMetricHandler().OnAdd(n.nodeMetric, false)
+			}
+			fn, _ := fresh.getNodeInfo(name)
+			obs = append(obs, vtC08Sums(fn)...)
+		}
+		for t := int64(1); t <= 3; t++ {
+			x := th(t)
+			obs = append(obs, vtB(x.has), vtB(x.has && x.created), vtB(x.ok))
+		}
+	}
+	return obs, dropped
+}
+
+func vtC08SchedExec(in []int64) []int64 {
+	obs, _ := vtC08SchedRun(in)
+	return obs
+}
+
+func vtC08SchedGen(r *rand.Rand, i int) (string, []int64) {
+	for {
+		label, in := vtC08SchedGen1(r)
+		// schedules on which the code gives an event up (both tries of an add-or-update meet a
+		// deleted nodeInfo) are the documented bounded-retry finding; they are not generated
+		dropped := false
+		func() {
+			defer func() { recover() }()
+			_, dropped = vtC08SchedRun(in)
+		}()
+		if !dropped {
+			return label, in
+		}
+	}
+}
+
+func vtC08SchedGen1(r *rand.Rand) (string, []int64) {
+	g := &vtC08G{r: r, rich: r.Intn(3) == 0}
+	g.large = r.Intn(4) == 0
+	g.ut = int64(r.Intn(600)) - 300
+	g.iv = g.pick(60, 60, 30, 0, 120)
+	// configuration: thresholds on, no expiry filtering (the wall clock plays no role here)
+	in := []int64{g.pick(50, 65, 80, -1), g.thr(), g.thr(), g.thr()}
+	in = append(in, 0, -1, -1, 0, 0)
+	in = append(in, 0, 0, 0, 0)
+	in = append(in, vtB(r.Intn(2) == 0), vtB(r.Intn(2) == 0))
+	in = append(in, vtB(r.Intn(2) == 0), g.pick(0, 30, 60, 300), vtB(r.Intn(2) == 0), g.pick(0, 30, 60, 300))
+	in = append(in, g.pick(85, 100, g.factor()), g.pick(70, 100, g.factor()))
+	cfgIn := in
+
+	nnode := int64(1 + r.Intn(2))
+	nuid := int64(2 + r.Intn(3))
+	pods := map[int64]*vtC08PodRec{}
+	getPod := func(uid int64) *vtC08PodRec {
+		if p, ok := pods[uid]; ok {
+			return p
+		}
+		p := g.newPod(uid)
+		p.f[5] = 0
+		pods[uid] = &p
+		return &p
+	}
+	nowv := g.ut - g.iv - 3
+	metricRec := func(node int64) []int64 {
+		out := []int64{node, 1, g.ut + int64(r.Intn(5)) - 2, vtB(r.Intn(3) != 0), g.iv, vtB(r.Intn(8) != 0), g.cpu(), g.mem(), g.cpu(), g.mem(), 0}
+		keys := []int64{}
+		for uid := int64(1); uid <= nuid; uid++ {
+			if r.Intn(2) == 0 {
+				keys = append(keys, getPod(uid).f[1])
+			}
+		}
+		out = append(out, int64(len(keys)))
+		for _, k := range keys {
+			prod := int64(0)
+			for uid := int64(1); uid <= nuid; uid++ {
+				if p, ok := pods[uid]; ok && p.f[1] == k && p.prod() {
+					prod = 1
+				}
+			}
+			out = append(out, k, g.pick(1, 1, 1, 1, 0), g.cpu(), g.mem(), prod)
+		}
+		return out
+	}
+	// the programs of the threads: each an event as the code decomposes it into lock sections
+	type action []int64
+	nthreads := 2 + r.Intn(2)
+	progs := make([][]action, nthreads)
+	for ti := 0; ti < nthreads; ti++ {
+		t := int64(ti + 1)
+		nev := 1 + r.Intn(4)
+		for ev := 0; ev < nev; ev++ {
+			node := 1 + r.Int63n(nnode)
+			uid := 1 + r.Int63n(nuid)
+			nowv += int64(r.Intn(3))
+			switch kind := r.Intn(10); {
+			case kind < 3: // assign
+				p := *getPod(uid)
+				if r.Intn(6) == 0 {
+					g.mutateSpec(&p)
+					*getPod(uid) = p
+				}
+				add := action(p.emit(nil, 3, t, nowv))
+				progs[ti] = append(progs[ti], action{1, t, node, 0}, add, action{1, t, node, 1}, add)
+			case kind < 6: // unassign
+				progs[ti] = append(progs[ti], action{2, t, node}, action{5, t, uid})
+			case kind < 8: // metric report
+				add := action(append([]int64{4, t}, metricRec(node)...))
+				progs[ti] = append(progs[ti], action{1, t, node, 0}, add, action{1, t, node, 1}, add)
+			case kind < 9: // metric deleted
+				progs[ti] = append(progs[ti], action{2, t, node}, action{6, t})
+			default: // filter
+				var nd [17]int64
+				nd[0] = node
+				nd[1], nd[2] = g.pick(100, 200, 400, 1000), g.pick(100, 200, 400, 1000)
+				if g.large {
+					nd[1], nd[2] = g.pick(4000, 8000, 32000), g.pick(1<<33, 1<<34, 1<<35)
+				}
+				nd[4], nd[5] = -1, -1
+				for k := 7; k <= 13; k++ {
+					nd[k] = -1
+				}
+				q := g.newPod(9)
+				q.f[2] = 0
+				progs[ti] = append(progs[ti], action(q.emit(nil, 8, append([]int64{t}, nd[:]...)...)))
+			}
+		}
+	}
+	// interleave: mostly a few actions of one thread at a time, so that both "between the two
+	// sections" and "uninterrupted" occur
+	style := []string{"fine", "coarse", "serial"}[r.Intn(3)]
+	acts := []action{}
+	idx := make([]int, nthreads)
+	for {
+		live := []int{}
+		for ti := range progs {
+			if idx[ti] < len(progs[ti]) {
+				live = append(live, ti)
+			}
+		}
+		if len(live) == 0 {
+			break
+		}
+		ti := live[r.Intn(len(live))]
+		burst := 1
+		switch style {
+		case "coarse":
+			burst = 1 + r.Intn(4)
+		case "serial":
+			burst = len(progs[ti])
+		}
+		for b := 0; b < burst && idx[ti] < len(progs[ti]); b++ {
+			acts = append(acts, progs[ti][idx[ti]])
+			idx[ti]++
+		}
+	}
+	// sometimes actions that belong to no well-formed program
+	if r.Intn(6) == 0 {
+		for k := 0; k < 3; k++ {
+			t := int64(1 + r.Intn(3))
+			acts = append(acts, []action{{5, t, 1 + r.Int63n(nuid)}, {6, t}, {2, t, 1 + r.Int63n(nnode)}, {1, t, 1 + r.Int63n(nnode), int64(r.Intn(2))}}[r.Intn(4)])
+		}
+		style += "-soup"
+	}
+	in = append(cfgIn, int64(len(acts)))
+	for _, a := range acts {
+		in = append(in, a...)
+	}
+	if g.rich {
+		style += "-rich"
+	}
+	return style, in
+}
+
+func TestVerifC08Sched(t *testing.T) { vtMain(t, "C08", vtC08SchedGen, vtC08SchedExec) }
